@@ -1,10 +1,62 @@
 ------------------------------ MODULE Registry ------------------------------
-(* The reference-counted components registry step, taken under the        *)
-(* components mutex: the new user count and whether this call is the one   *)
-(* that registers (first user) or unregisters (last user) the components.  *)
-(* Shared by the protocol model (Concurrency.tla) and the trace            *)
-(* specification (TraceConcurrency.tla).                                   *)
-EXTENDS Integers
+(* The reference-counted components registry.                              *)
+(*                                                                         *)
+(* RegInit / RegFini: the step taken under the components mutex: the new   *)
+(* user count and whether this call is the one that registers (first user) *)
+(* or unregisters (last user) the components.                              *)
+(*                                                                         *)
+(* The alphabet of public entry points that take the registry, and the     *)
+(* BALANCE LAW that makes independent topologies independent: every call   *)
+(* leaves the user count where it found it, except that a call that hands  *)
+(* a new topology to its caller keeps one reference (+1) and               *)
+(* hwloc_topology_destroy gives one back (-1).  Hence, between calls,      *)
+(*        users = number of live topologies in the process,                *)
+(* and the components stay registered exactly as long as some thread owns  *)
+(* a topology, whatever the other threads do with theirs - on EVERY return *)
+(* path, failing ones included.                                            *)
+(*                                                                         *)
+(* Shared by the protocol model (Concurrency.tla), the generator of        *)
+(* independent histories (IndepCalls.tla / MC_IndepCalls.tla) and the      *)
+(* trace specification (TraceConcurrency.tla).                             *)
+EXTENDS Integers, Sequences
 RegInit(u) == [users |-> u + 1, edge |-> u = 0]
 RegFini(u) == [users |-> u - 1, edge |-> u = 1]
+
+(* every caller of hwloc_components_init() / hwloc_components_fini() reachable from the public API *)
+TakeOps    == {"init",            \* hwloc_topology_init
+               "dup",             \* hwloc_topology_dup           (-> hwloc__topology_init)
+               "adopt"}           \* hwloc_shmem_topology_adopt
+DropOps    == {"destroy"}         \* hwloc_topology_destroy, also of a duplicated or adopted topology (hwloc__topology_disadopt)
+NeutralOps == {"shmlen",          \* hwloc_shmem_topology_get_length  (dup into a counting allocator, destroy)
+               "shmwrite",        \* hwloc_shmem_topology_write       (dup into the mapping, fini)
+               "diffload_buf",    \* hwloc_topology_diff_load_xmlbuffer
+               "diffload_file",   \* hwloc_topology_diff_load_xml
+               "diffexp_buf",     \* hwloc_topology_diff_export_xmlbuffer
+               "diffexp_file"}    \* hwloc_topology_diff_export_xml
+(* calls of the independent histories that never take the registry (they need it REGISTERED: set_synthetic, load, XML export) *)
+LocalOps   == {"load", "modify", "digest", "diffbuild", "diffdestroy"}
+RegOps == TakeOps \cup DropOps \cup NeutralOps
+AllOps == RegOps \cup LocalOps
+
+(* net effect of one call on the user count; ok = the call returned success *)
+Net(op, ok) == IF op \in TakeOps /\ ok THEN 1 ELSE IF op \in DropOps THEN -1 ELSE 0
+
+(* the registry steps a call may take, as deltas in the order the mutex gave them: whatever it does inside (nothing, or  *)
+(* init ... fini around its body, or several such pairs), it never releases a reference it does not hold and it ends at *)
+(* its net effect.  A fini without a matching init on some return path, or an init that is never given back, is out.    *)
+RECURSIVE BalancedFrom(_, _, _, _, _)
+BalancedFrom(d, k, acc, floor, net) ==
+  IF k > Len(d) THEN acc = net
+  ELSE acc + d[k] >= floor /\ BalancedFrom(d, k + 1, acc + d[k], floor, net)
+Balanced(d, net) == BalancedFrom(d, 1, 0, IF net < 0 THEN net ELSE 0, net)
+
+(* the footprints the protocol model explores for a call of net effect n: the shortest ones that the code really has *)
+Footprints(n) == CASE n = 1  -> {<<1>>}
+                   [] n = -1 -> {<<-1>>}
+                   [] n = 0  -> {<<>>, <<1, -1>>}
+(* ... and what a broken return path looks like (negative control of the model: TLC must find the interference) *)
+BrokenFootprints == {<<-1>>, <<1>>}
+
+RECURSIVE SumSeq(_)
+SumSeq(s) == IF s = <<>> THEN 0 ELSE Head(s) + SumSeq(Tail(s))
 =============================================================================
